@@ -1,7 +1,7 @@
 (* Properties/C19.v — timeouts and Close. *)
 From Coq Require Import List ZArith Bool.
 Import ListNotations.
-Require Import Reassembler ReasmInv ReasmC01 ReasmClose.
+Require Import Reassembler ReasmInv ReasmC01 ReasmClose ReasmCause.
 Open Scope Z_scope.
 
 (* after a Close, whatever else is called, Maintain and a further Close return the
@@ -19,6 +19,33 @@ Proof. exact first_close_succeeds. Qed.
 Theorem C19_close_flushes_everything : forall c ops, chk_C01 [] ops (run c init ops) = true.
 Proof. exact ReasmC01.C01_exactly_once_grouped. Qed.
 
+(* timeouts, on the model's state, for every buffer content, configuration (negative, zero, any
+   timeout) and clock reading: what CleanUp leaves at the head is not expired — so an event that
+   never completes goes in the first Maintain / PushMessage whose clock reading is past its
+   expiry, as soon as it is the oldest *)
+Theorem C19_head_not_stale : forall c now sqs em last has,
+  let '(sqs', em', _, _, outs, _) := evict false c now sqs em last has in
+  In Panic outs \/
+  match sqs' with
+  | [] => True
+  | k :: _ => exists e, lookup k em' = Some e /\ complete e = false /\ Z.of_nat (length sqs') <= maxSize c /\ now <= expire e
+  end.
+Proof. exact head_after_cleanup. Qed.
+(* never on account of time before that: an eviction of an incomplete event from a buffer within
+   its bound happens only at a clock reading past the expiry *)
+Theorem C19_no_early_timeout : forall c now sqs em t, In t (evict_log false c now sqs em) ->
+  let '(sq, e, size) := t in complete e = true \/ size > maxSize c \/ now > expire e.
+Proof. exact evictions_have_cause. Qed.
+(* and the expiry is the reading of the Put that opened the event plus the timeout; later records do not move it *)
+Theorem C19_expiry_fixed_at_open : forall c now m s,
+  (lookup (mseq m) (events s) = None -> (mty m =? AUDIT_EOE) = false ->
+   exists e, lookup (mseq m) (events (put c now m s)) = Some e /\ expire e = now + timeout c) /\
+  (forall k e, lookup k (events s) = Some e -> exists e', lookup k (events (put c now m s)) = Some e' /\ expire e' = expire e).
+Proof. intros c now m s. split; [apply put_opens_with_timeout | intros k e; apply put_keeps_expiry]. Qed.
+
+Print Assumptions C19_head_not_stale.
+Print Assumptions C19_no_early_timeout.
+Print Assumptions C19_expiry_fixed_at_open.
 Print Assumptions C19_closed_is_final.
 Print Assumptions C19_first_close_succeeds.
 Print Assumptions C19_close_flushes_everything.
